@@ -1011,6 +1011,47 @@ Proof.
   - destruct (IH I) as [A [B C]]. unfold resolvable in *. rewrite Hd in B. auto.
 Qed.
 
+Lemma query_one_asks cfg s k :
+  is_some (aget k (svcs s)) = true -> resolvable cfg s k = true ->
+  In (k, KQuery) (snd (query_one cfg s k)).
+Proof.
+  intros G R. unfold query_one. destruct (aget k (svcs s)) as [[st sp]|]; [|discriminate].
+  rewrite R. destruct (answers_ok cfg k); left; reflexivity.
+Qed.
+
+Lemma query_one_keeps cfg s k n :
+  is_some (aget n (svcs (fst (query_one cfg s k)))) = is_some (aget n (svcs s)).
+Proof.
+  unfold query_one. destruct (aget k (svcs s)) as [[st sp]|] eqn:G; [|reflexivity].
+  destruct (resolvable cfg s k); [|reflexivity]. destruct (answers_ok cfg k); [|reflexivity]. simpl.
+  destruct (Z.eqb_spec n k) as [->|N]; [rewrite aget_aset_same, G; reflexivity | rewrite aget_aset_other by exact N; reflexivity].
+Qed.
+
+Lemma query_list_asks cfg l : forall s n,
+  In n l -> is_some (aget n (svcs s)) = true -> resolvable cfg s n = true ->
+  In (n, KQuery) (snd (query_list cfg s l)).
+Proof.
+  induction l as [|k r IH]; intros s n I G R; [contradiction|]. simpl.
+  pose proof (query_one_asks cfg s k) as A. pose proof (query_one_keeps cfg s k n) as K.
+  pose proof (proj2 (query_one_frame cfg s k)) as Dd.
+  destruct (query_one cfg s k) as [s1 o1]. specialize (IH s1 n).
+  destruct (query_list cfg s1 r) as [s2 o2]. simpl in *. apply in_or_app.
+  destruct (Z.eq_dec k n) as [->|N].
+  - left. apply A; assumption.
+  - right. apply IH.
+    + destruct I as [E|I]; [congruence | exact I].
+    + rewrite K. exact G.
+    + unfold resolvable in *. rewrite Dd. exact R.
+Qed.
+
+Lemma asked_reaches cfg h n sends :
+  hidden h n = false -> present cfg n = true -> In (n, KQuery) sends ->
+  (hidden h n || negb (present cfg n) || existsb (fun x => Z.eqb (fst x) n && is_kquery (snd x)) sends) = true.
+Proof.
+  intros Hd P I. rewrite Hd, P. simpl. apply existsb_exists. exists (n, KQuery).
+  split; [exact I | simpl; rewrite Z.eqb_refl; reflexivity].
+Qed.
+
 Lemma resolvable_final cfg h n :
   resolvable cfg (final cfg h) n = true -> hosted cfg n = true /\ hidden h n = false.
 Proof.
@@ -1085,13 +1126,33 @@ Proof.
       { intro A. rewrite A in Ok. discriminate. }
       destruct (step_refused cfg _ c A) as [_ [-> ->]]. reflexivity.
   - simpl. pose proof (query_list_sends cfg (akeys (svcs (final cfg h))) (final cfg h)) as Q.
+    assert (AS : forall n, hosted cfg n = true -> hidden h n = false -> present cfg n = true ->
+                 In (n, KQuery) (snd (query_list cfg (final cfg h) (akeys (svcs (final cfg h)))))).
+    { intros n Hn Hd P. pose proof (services_view cfg h n) as G. rewrite Hn in G.
+      apply query_list_asks; [eapply aget_some_keys; exact G | rewrite G; reflexivity |].
+      rewrite (resolvable_hid _ _ _ (dir_ok_final cfg h)), hid_final, P, Hd. reflexivity. }
     destruct (query_list cfg (final cfg h) (akeys (svcs (final cfg h)))) as [s1 snds]. simpl in *.
-    apply forallb_forall. intros x I. destruct (Q x I) as [-> [P _]].
-    destruct (resolvable_final _ _ _ P) as [-> ->]. reflexivity.
+    apply andb_true_iff. split.
+    + apply forallb_forall. intros x I. destruct (Q x I) as [-> [P _]].
+      destruct (resolvable_final _ _ _ P) as [-> ->]. reflexivity.
+    + apply forallb_forall. intros n I. apply hosted_names in I. simpl.
+      destruct (hidden h n) eqn:Hd; [reflexivity|]. destruct (present cfg n) eqn:P; [|reflexivity].
+      rewrite <- Hd at 1. rewrite <- P at 1. apply asked_reaches; [exact Hd | exact P |].
+      apply AS; [exact I | exact Hd | exact P].
   - simpl. pose proof (query_one_sends cfg (final cfg h) k) as Q.
+    assert (AS1 : hosted cfg k = true -> hidden h k = false -> present cfg k = true ->
+                  In (k, KQuery) (snd (query_one cfg (final cfg h) k))).
+    { intros Hn Hd P. pose proof (services_view cfg h k) as G. rewrite Hn in G.
+      apply query_one_asks; [rewrite G; reflexivity | rewrite (resolvable_hid _ _ _ (dir_ok_final cfg h)), hid_final, P, Hd; reflexivity]. }
     destruct (query_one cfg (final cfg h) k) as [s1 snds]. simpl in *.
-    apply forallb_forall. intros x I. destruct (Q x I) as [-> P]. simpl.
-    destruct (resolvable_final _ _ _ P) as [-> ->]. rewrite Z.eqb_refl. reflexivity.
+    apply andb_true_iff. split.
+    + apply forallb_forall. intros x I. destruct (Q x I) as [-> P]. simpl.
+      destruct (resolvable_final _ _ _ P) as [-> ->]. rewrite Z.eqb_refl. reflexivity.
+    + apply forallb_forall. intros n I. apply hosted_names in I. simpl.
+      destruct (Z.eqb_spec k n) as [->|N]; [|reflexivity]. simpl.
+      destruct (hidden h n) eqn:Hd; [reflexivity|]. destruct (present cfg n) eqn:P; [|reflexivity].
+      rewrite <- Hd at 1. rewrite <- P at 1. apply asked_reaches; [exact Hd | exact P |].
+      apply AS1; [exact I | reflexivity | reflexivity].
   - simpl. destruct sc; [|reflexivity]. destruct (service_retired (final cfg h) k). reflexivity.
   - simpl. destruct (service_retired (final cfg h) k). reflexivity.
   - simpl. destruct (pend (final cfg h)); [reflexivity|]. destruct succ; reflexivity.
@@ -1378,4 +1439,28 @@ Proof.
   { intro n. unfold declared. rewrite queried_snoc, A. simpl. rewrite orb_false_r. reflexivity. }
   split; [exact D|]. rewrite !support_view. f_equal. unfold all_declared.
   apply forallb_ext_in. intros n _. apply D.
+Qed.
+
+(* ---------------------------------------------------------------- the node's service list *)
+Lemma defined_filter nl : defined (filter is_defined nl) = defined nl.
+Proof.
+  unfold defined. induction nl as [|[n [d|]] r IH]; simpl; [reflexivity | rewrite IH; reflexivity | exact IH].
+Qed.
+
+Lemma defined_app a b : defined (a ++ b) = defined a ++ defined b.
+Proof. unfold defined. apply flat_map_app. Qed.
+
+(* entries of the node's service list that the services section does not define are invisible:
+   wherever they stand (first, between, last, repeated), the hosted services - the ones
+   enumerated, asked, told and waited for - are the defined entries in list order, and every
+   history runs exactly as on the list without them *)
+Lemma undefined_entries_invisible (nl : nodelist) :
+  names (defined nl) = map fst (filter is_defined nl) /\
+  (forall a n b, defined (a ++ (n, None) :: b) = defined (a ++ b)) /\
+  forall h, run (defined nl) h = run (defined (filter is_defined nl)) h.
+Proof.
+  split; [|split].
+  - unfold names, defined. induction nl as [|[n [d|]] r IH]; simpl; [reflexivity | rewrite IH; reflexivity | exact IH].
+  - intros a n b. rewrite !defined_app. reflexivity.
+  - intro h. rewrite defined_filter. reflexivity.
 Qed.
